@@ -17,6 +17,8 @@ def make(ID, algos, gens, judge_fn, quick, thorough, corpus_cases=(), known_algo
     def algos_for(case):
         has = any("f" in l for _, l in solvers._leaves(case["O"]))
         out = [a for a in algos if has or solvers.MODE[a] == "plain"]
+        if case.get("only") == "unordered":
+            out = [a for a in out if solvers.MODE[a] == "unordered"]
         if case.get("root") is not None:
             # a prescribed root order only has a documented meaning for the ordered solvers
             out = [a for a in out if solvers.MODE[a] != "unordered"]
